@@ -29,9 +29,10 @@
         &&& (r.enumeration is Some ==> in_enum(s, r.enumeration->0))
         &&& (has_num_facet(r) ==> is_numeral(s) && num_ok(int_of(s), r))
     }
-    // numerals that the String carrier can compare at all (it parses into i32)
+    // numerals that the String carrier can compare at all (it parses into the widest primitive, i128;
+    // numerals beyond that are the known finding `String/full-range`)
     pub open spec fn str_in_range(s: Seq<char>, r: Restrictions) -> bool {
-        (has_num_facet(r) && is_numeral(s)) ==> i32::MIN <= int_of(s) <= i32::MAX
+        (has_num_facet(r) && is_numeral(s)) ==> i128::MIN <= int_of(s) <= i128::MAX
     }
 //# section: trait-spec-members
         // `dom`: the (value, restriction set) pairs for which the property defines an answer for this
